@@ -582,3 +582,38 @@ Example omap_inv_nonvacuous :
   om_keys (fold_left (fun o op => omap_apply cfg_all sched_rev [] op o)
              [OBuild [5; 1; 9]; OSet 4; ODelete 5; OUnion [7; 1; 0]] (mk_omap [] [])) = [0; 1; 4; 7; 9].
 Proof. vm_compute. reflexivity. Qed.
+
+(* ------------------------------------------------------------------ transaction-scoped process state and restarts *)
+
+(** when every publisher is guarded no message ever sees a stale pointer, whatever the restarts *)
+Lemma run_handlers_clean h :
+  forallb (fun x => h_guarded (snd x)) h = true ->
+  run_handlers false h = map (fun _ => 0%nat) h.
+Proof.
+  induction h as [|[r m] t IH]; simpl; intro H; auto.
+  apply andb_true_iff in H as [Hg Ht]. simpl in Hg.
+  destruct r; unfold handle; rewrite Hg; simpl; f_equal; apply IH; exact Ht.
+Qed.
+
+Theorem restart_independent h :
+  forallb (fun x => h_guarded (snd x)) h = true ->
+  run_handlers false h = run_handlers false (no_restarts h).
+Proof.
+  intro H. rewrite run_handlers_clean by exact H.
+  rewrite run_handlers_clean.
+  - unfold no_restarts. rewrite map_map. reflexivity.
+  - unfold no_restarts. rewrite forallb_forall in *. intros x Hx.
+    apply in_map_iff in Hx as [y [<- Hy]]. simpl. apply H. exact Hy.
+Qed.
+
+(** one unguarded publisher that fails early, a restart, one more message: the restarted node answers differently *)
+Theorem unguarded_publisher_refuted :
+  exists h, run_handlers false h <> run_handlers false (no_restarts h).
+Proof.
+  exists [(false, mk_hmsg false true); (true, mk_hmsg true false)]. vm_compute. discriminate.
+Qed.
+
+Example restart_independent_nonvacuous :
+  run_handlers false [(false, mk_hmsg true true); (true, mk_hmsg true false); (false, mk_hmsg true true); (true, mk_hmsg true true)]
+  = [0; 0; 0; 0]%nat.
+Proof. reflexivity. Qed.
